@@ -233,6 +233,41 @@ def gen(seed, scale):
             b[rnd.randrange(len(b))] = rnd.randrange(256)
         damaged.append((tool, bytes(b), opts, label + ",body-noise", "damaged"))
         damaged.append((tool, data + bytes(rnd.randrange(256) for _ in range(9)), opts, label + ",appended", "damaged"))
+    # every short prefix of one valid file per decoder (C19: "every prefix of a valid file"): the cuts inside the header fields
+    seen_tools = set()
+    for tool, data, opts, label, fam in base:
+        if tool in seen_tools or any(k in opts for k in ("rows", "newsroom", "skip")):
+            continue
+        seen_tools.add(tool)
+        for cut in range(0, 9):
+            damaged.append((tool, data[:cut], opts, label + ",prefix of %d bytes" % cut, "damaged"))
+    # CM3: the control byte of a compressed line announces fewer mask bytes than the line's "new value" bits consume
+    for which in ("last", "middle", "first-compressed"):
+        pal = [rnd.randrange(64) for _ in range(16)]
+        data = bytearray([1]) + bytes(pal) + bytes(12) + bytes([192])
+        prev = [0] * 160
+        controls = []
+        for ln in range(192):
+            if ln == 0:
+                cur = list(content(rnd, 160, "rand"))
+                enc = enc_cm3_line(cur, prev, rnd, "raw")
+            else:
+                cur = list(prev)
+                for _ in range(9 + ln % 5):        # 9..13 new values: two mask bytes
+                    cur[rnd.randrange(160)] = rnd.randrange(256)
+                enc = enc_cm3_line(cur, prev, rnd, "packed")
+                if enc is None or enc[0] == 0:
+                    enc = enc_cm3_line(cur, prev, rnd, "raw")
+                else:
+                    controls.append(len(data))
+            data += enc
+            prev = cur
+        if controls:
+            at = {"last": controls[-1], "middle": controls[len(controls) // 2], "first-compressed": controls[0]}[which]
+            for lower in (1, data[at]):
+                b = bytearray(data)
+                b[at] -= lower
+                damaged.append(("cm3toppm", bytes(b), {}, "cm3/control byte of the %s compressed line lowered by %d" % (which, lower), "damaged"))
     for n in (4, 12, 24, 40, 60, 7812, 8064, 31, 33):      # PIX sizes next to squares: (s*s-1)/2 for odd s, s*s/2 +- 1
         damaged.append(("pixtopgm", bytes(rnd.randrange(256) for _ in range(n)), {}, "pixtopgm/%d bytes (not half a square)" % n, "damaged"))
     for tool in ("hrstoppm", "rattoppm", "mgetoppm", "cm3toppm", "maxtoppm", "pixtopgm"):
@@ -395,6 +430,8 @@ def evaluate(prop, cases):
                             why = "success reported with %d samples under a header announcing %dx%d" % (len(body), w, h)
                         elif e is not None and (w, h) != (e[0], e[1]):
                             why = "header announces %dx%d, the format/options dictate %dx%d" % (w, h, e[0], e[1])
+                        elif e is None and fam == "damaged" and prop == "C19":
+                            why = "success reported (a %dx%d picture) on a file the format definition rejects as incomplete or inconsistent" % (w, h)
                 elif prop == "C18" and e is not None and fam != "damaged":
                     why = "real decoder failed on a well-formed file: %s %s" % (r["outcome"], r.get("exception") or r.get("exit_code"))
         if why:
